@@ -9,6 +9,7 @@
    map (filter + ID collision check per resource); [obj_cluster_scoped t obj] = Gvk.IsClusterScoped over
    scope table t; [obj_namespace] = RNode.GetNamespace; [ns_chain] = one resource through the directives
    of its layer chain, [outermost] the last non-empty one. *)
+From KV Require Import Res.Pipeline Res.NameRefProofs Res.NamespaceSubjects.
 From KV Require Import Res.Labels Res.LabelsProofs Res.Namespace Res.NamespaceProofs Res.NamespaceTree Res.NamespaceGen.
 From KV Require Import Gen.NsScope Gen.FieldSpecs.
 
@@ -109,3 +110,82 @@ Theorem C09_subjects_partial :
                 Forall2 (subject_rel (default_ns ns) "name" "default") es es'.
 Proof. exact subjects_default_default. Qed.
 Print Assumptions C09_subjects_partial.
+
+(* ---- subjects, full statement: the name-reference pass (C03 model Res/NameRef.v: setMapping) after the
+   namespace transformer (Res/Pipeline.v: StorePreviousId + namespace.Filter + id check) ----
+   m0 = the accumulated resources of a kustomization with `namespace: ns`, m1 after the namespace transformer,
+   m2 after nameReferenceTransformer.Transform with the generated rule table. If, among the candidates the binding
+   at position i may refer to (restricted to the namespace the subject names, all of them if it names none), exactly
+   one ever bore the subject's name with the kind the rule is about, and that one is the account at position j
+   (namespaced, moved by the transformer), then the subject's name and namespace in m2 are the account's name and
+   namespace in m2, and that namespace is ns. All hypotheses are equations between computable terms. *)
+Theorem C09_subjects :
+  forall (nonstr : string -> bool) (ns : string) (m0 m1 m2 : list resource) (rules : list nbr)
+         (i j k : nat) (r a0 a : resource) (org : resid) (fs0 : fieldspec) (tg0 : gvk) (rest : list (fieldspec * gvk))
+         (kvs ekvs : list (string * node)) (es : list node) (name_node : node) (cands : list cand) (b : cand),
+    ns <> "" ->
+    namespace_transform ns m0 = Ok m1 -> pipe_rules = Ok rules ->
+    nameref_transform pipe_cs nonstr rules m1 = Ok m2 ->
+    nth_error m1 i = Some r -> org_id pipe_cs r = Ok org ->
+    filters_for rules org = (fs0, tg0) :: rest -> binding_rules_ok ((fs0, tg0) :: rest) = true ->
+    r_node r = Map kvs -> find_field "subjects" kvs = Some (Seq es) ->
+    nth_error es k = Some (Map ekvs) -> find_field "name" ekvs = Some name_node ->
+    nth_error m0 j = Some a0 -> nth_error m1 j = Some a -> nil_or_empty (r_node a0) = false ->
+    meta_not_seq (r_node a0) = true -> Namespace.obj_cluster_scoped gen_ns_scope (r_node a0) = false ->
+    view pipe_cs a = Ok b -> c_name b <> "" ->
+    cands_at pipe_cs m1 i = Ok cands ->
+    let x := make_ctx pipe_cs r "subjects" tg0 in
+    filter (name_kind_match x (node_value name_node)) (mapping_cands ekvs cands) = [b] ->
+    roleref_sieve x b && namespace_sieve x b = true ->
+    exists r' a' kvs' es' e',
+      nth_error m2 i = Some r' /\ nth_error m2 j = Some a' /\
+      r_node r' = Map kvs' /\ find_field "subjects" kvs' = Some (Seq es') /\ nth_error es' k = Some e' /\
+      subj_str "name" e' = get_name (r_node a') /\
+      subj_str "namespace" e' = get_namespace (r_node a') /\
+      get_namespace (r_node a') = ns.
+Proof. exact subjects_follow_account. Qed.
+Print Assumptions C09_subjects.
+
+(* the name-reference half on its own: any resource map, any scope function, any rule table whose rules are
+   plain and identity-safe; the subject takes the CURRENT name and namespace of the unique candidate *)
+Theorem C09_subjects_nameref :
+  forall (cs : string -> string -> bool) (nonstr : string -> bool)
+         rules m m' i r org fs0 tg0 rest kvs es k ekvs name_node cands b,
+    (forall b f, In b rules -> In f (nb_referrers b) -> rule_ok f) ->
+    nameref_transform cs nonstr rules m = Ok m' ->
+    nth_error m i = Some r -> org_id cs r = Ok org ->
+    filters_for rules org = (fs0, tg0) :: rest -> binding_rules_ok ((fs0, tg0) :: rest) = true ->
+    r_node r = Map kvs -> find_field "subjects" kvs = Some (Seq es) ->
+    cands_at cs m i = Ok cands ->
+    nth_error es k = Some (Map ekvs) -> find_field "name" ekvs = Some name_node ->
+    let x := make_ctx cs r "subjects" tg0 in
+    filter (name_kind_match x (node_value name_node)) (mapping_cands ekvs cands) = [b] ->
+    roleref_sieve x b && namespace_sieve x b = true ->
+    c_name b <> "" -> c_ns b <> "" ->
+    exists r' kvs' es' e',
+      nth_error m' i = Some r' /\ r_node r' = Map kvs' /\ find_field "subjects" kvs' = Some (Seq es') /\
+      nth_error es' k = Some e' /\ subj_str "name" e' = c_name b /\ subj_str "namespace" e' = c_ns b.
+Proof. exact subjects_follow. Qed.
+Print Assumptions C09_subjects_nameref.
+
+(* in the generated rule table the rules that apply to an rbac RoleBinding / ClusterRoleBinding are the
+   `subjects` rule first, then rules whose paths start elsewhere (roleRef/name) *)
+Theorem Gen_binding_rules :
+  forall (kind name ns version : string),
+    kind = "RoleBinding" \/ kind = "ClusterRoleBinding" ->
+    version = "v1" \/ version = "v1beta1" ->
+    binding_rules_ok (filters_for pipe_rule_list (mkId (gvk_lit "rbac.authorization.k8s.io" version kind) name ns)) = true.
+Proof. exact gen_binding_rules_ok. Qed.
+Print Assumptions Gen_binding_rules.
+
+(* A subject that spells its namespace as the empty string is not recognised as designating the account in
+   the default namespace: it keeps `namespace: ""` while the account moves (finding
+   C09/subjects/empty-namespace-subject, confirmed on the implementation). *)
+Theorem C09_subjects_empty_namespace_refuted :
+  exists m2 r' a',
+    sj_run [sj_sa "sa1"; sj_rb [Map [("kind", sj_sc "ServiceAccount"); ("name", sj_sc "sa1"); ("namespace", sj_sc "")]]] = Ok m2 /\
+    nth_error m2 0 = Some a' /\ nth_error m2 1 = Some r' /\
+    get_namespace (r_node a') = "prod" /\
+    sj_subjects r' = Some (Seq [Map [("kind", sj_sc "ServiceAccount"); ("name", sj_sc "sa1"); ("namespace", sj_sc "")]]).
+Proof. exact subjects_empty_namespace_refuted. Qed.
+Print Assumptions C09_subjects_empty_namespace_refuted.
